@@ -2,6 +2,8 @@
 C07 — helper lemmas: locality of a node action in the chain, and the conservation (accounting) invariant.
 -/
 import Kap.Model.C07
+set_option linter.unusedSimpArgs false
+set_option linter.unusedVariables false
 namespace Kap.C07
 
 /-! ### A node action touches only node `i` and its child `i+1` -/
@@ -127,6 +129,24 @@ theorem nodeStep_balOut {env a nd child r} (h : nodeStep env a nd child = some r
   unfold balOut at *
   nstep h <;> (try (simp_all; done)) <;> (try (simp_all; omega)) <;> (cases hk : nd.kind <;> simp_all <;> omega)
 
+@[simp] theorem closeIn_kind (c : Nd) : (closeIn c).kind = c.kind := by unfold closeIn; split <;> rfl
+@[simp] theorem closeIn_inq (c : Nd) : (closeIn c).inq = c.inq := by unfold closeIn; split <;> rfl
+@[simp] theorem closeIn_ent (c : Nd) : (closeIn c).ent = c.ent := by unfold closeIn; split <;> rfl
+@[simp] theorem closeIn_inAborted (c : Nd) : (closeIn c).inAborted = c.inAborted := by unfold closeIn; split <;> rfl
+@[simp] theorem closeIn_hand (c : Nd) : (closeIn c).hand = c.hand := by unfold closeIn; split <;> rfl
+@[simp] theorem closeIn_got (c : Nd) : (closeIn c).got = c.got := by unfold closeIn; split <;> rfl
+@[simp] theorem closeIn_deliv (c : Nd) : (closeIn c).deliv = c.deliv := by unfold closeIn; split <;> rfl
+@[simp] theorem closeIn_lost (c : Nd) : (closeIn c).lost = c.lost := by unfold closeIn; split <;> rfl
+@[simp] theorem closeIn_dropped (c : Nd) : (closeIn c).dropped = c.dropped := by unfold closeIn; split <;> rfl
+@[simp] theorem closeIn_buf (c : Nd) : (closeIn c).buf = c.buf := by unfold closeIn; split <;> rfl
+@[simp] theorem closeIn_inited (c : Nd) : (closeIn c).inited = c.inited := by unfold closeIn; split <;> rfl
+@[simp] theorem closeIn_stopping (c : Nd) : (closeIn c).stopping = c.stopping := by unfold closeIn; split <;> rfl
+@[simp] theorem closeIn_helperDone (c : Nd) : (closeIn c).helperDone = c.helperDone := by unfold closeIn; split <;> rfl
+@[simp] theorem closeIn_failed (c : Nd) : (closeIn c).failed = c.failed := by unfold closeIn; split <;> rfl
+@[simp] theorem closeIn_done (c : Nd) : (closeIn c).done = c.done := by unfold closeIn; split <;> rfl
+theorem closeIn_inClosed (c : Nd) : (closeIn c).inClosed = (c.inClosed || !c.inAborted) := by
+  unfold closeIn; split <;> simp_all
+
 /-- What a node action can do to its child: nothing, one more message in its input edge, or closing that edge. -/
 def ChildEff (c c' : Nd) : Prop :=
   c' = c ∨ c' = { c with inq := c.inq + 1, ent := c.ent + 1 } ∨ c' = closeIn c
@@ -137,18 +157,297 @@ theorem nodeStep_child_none {env a nd r} (h : nodeStep env a nd none = some r) :
 theorem nodeStep_child {env a nd c r} (h : nodeStep env a nd (some c) = some r) (hf : balFwd nd c) :
     ∃ c', r.child = some c' ∧ ChildEff c c' ∧ balFwd r.nd c' := by
   unfold balFwd ChildEff at *
-  nstep h <;> simp_all [forwards, closeIn] <;> (try omega) <;> (try (split <;> simp_all)) <;> (try omega)
+  nstep h <;> simp_all [forwards] <;> omega
+
+theorem nodeStep_childEff {env a nd c r} (h : nodeStep env a nd (some c) = some r) :
+    ∃ c', r.child = some c' ∧ ChildEff c c' := by
+  unfold ChildEff
+  nstep h <;> simp_all
+
+/-- Every node of the chain after a node action at `i`: untouched, the acting node, or its child. -/
+theorem stepAt_cases {env : Env} {a : NAct} {i : Nat} {ns0 ns : List Nd} {l : Bool}
+    (h : stepAt env a i ns0 = some (ns, l)) :
+    ∃ nd r, ns0[i]? = some nd ∧ nodeStep env a nd ns0[i+1]? = some r ∧ l = r.looped ∧ ns.length = ns0.length ∧
+      ns[i]? = some r.nd ∧ (∀ k, k ≠ i → k ≠ i + 1 → ns[k]? = ns0[k]?) ∧
+      ∀ (k : Nat) (x : Nd), ns[k]? = some x →
+        (k ≠ i ∧ k ≠ i + 1 ∧ ns0[k]? = some x) ∨ (k = i ∧ x = r.nd) ∨
+        (k = i + 1 ∧ ∃ c, ns0[i+1]? = some c ∧ r.child = some x ∧ ChildEff c x) := by
+  obtain ⟨nd, r, g1, g2, g3, g4, g5, g6, g7⟩ := stepAt_spec h
+  refine ⟨nd, r, g1, g2, g3, g4, g5, g7, ?_⟩
+  intro k x hk
+  by_cases hki : k = i
+  · subst hki; rw [g5] at hk; simp at hk; exact Or.inr (Or.inl ⟨rfl, hk.symm⟩)
+  · by_cases hki1 : k = i + 1
+    · subst hki1
+      cases hc1 : ns0[i+1]? with
+      | none =>
+        have : ns[i+1]? = none := by
+          rw [List.getElem?_eq_none_iff] at hc1 ⊢; omega
+        rw [this] at hk; simp at hk
+      | some c =>
+        rw [hc1] at g2
+        obtain ⟨c', e1, e2⟩ := nodeStep_childEff g2
+        rw [g6 c hc1, e1] at hk; simp at hk; subst hk
+        exact Or.inr (Or.inr ⟨rfl, c, rfl, e1, e2⟩)
+    · rw [g7 k hki hki1] at hk
+      exact Or.inl ⟨hki, hki1, hk⟩
 
 theorem ChildEff.balIn {c c' : Nd} (h : ChildEff c c') (hi : balIn c) : balIn c' := by
-  unfold ChildEff Kap.C07.balIn closeIn at *
-  rcases h with h | h | h <;> subst h <;> (try split) <;> simp_all <;> omega
+  unfold ChildEff Kap.C07.balIn at *
+  rcases h with h | h | h <;> subst h <;> simp_all <;> omega
 
 theorem ChildEff.balOut {c c' : Nd} (h : ChildEff c c') (hi : balOut c) : balOut c' := by
-  unfold ChildEff closeIn at *
-  rcases h with h | h | h <;> subst h <;> (try split) <;> simpa [Kap.C07.balOut] using hi
+  unfold ChildEff at *
+  rcases h with h | h | h <;> subst h <;> simpa [Kap.C07.balOut] using hi
 
 theorem ChildEff.balFwd {c c' g : Nd} (h : ChildEff c c') (hi : balFwd c g) : balFwd c' g := by
-  unfold ChildEff closeIn at *
-  rcases h with h | h | h <;> subst h <;> (try split) <;> simpa [Kap.C07.balFwd] using hi
+  unfold ChildEff at *
+  rcases h with h | h | h <;> subst h <;> simpa [Kap.C07.balFwd] using hi
+
+/-- Conservation invariant of a state. -/
+structure Cons (s : State) : Prop where
+  nodeIn : ∀ (i : Nat) (nd : Nd), s.nodes[i]? = some nd → balIn nd
+  nodeOut : ∀ (i : Nat) (nd : Nd), s.nodes[i]? = some nd → balOut nd
+  fwd : ∀ (i : Nat) (nd c : Nd), s.nodes[i]? = some nd → s.nodes[i+1]? = some c → balFwd nd c
+  src : s.accepted = s.ingest + s.forkHand + s.lostIngest + (s.nodes[0]?.map (·.ent)).getD 0
+
+/-- A change of the node list that keeps the per-node and per-pair balances and the first node's `ent`. -/
+theorem Cons.of_nodes {s' : State}
+    (h1 : ∀ (i : Nat) (nd' : Nd), s'.nodes[i]? = some nd' → balIn nd' ∧ balOut nd')
+    (h2 : ∀ (i : Nat) (nd' c' : Nd), s'.nodes[i]? = some nd' → s'.nodes[i+1]? = some c' → balFwd nd' c')
+    (h3 : s'.accepted = s'.ingest + s'.forkHand + s'.lostIngest + (s'.nodes[0]?.map (·.ent)).getD 0) : Cons s' :=
+  ⟨fun i nd h => (h1 i nd h).1, fun i nd h => (h1 i nd h).2, h2, h3⟩
+
+theorem cons_modifyNth {s : State} (hc : Cons s) (i : Nat) (f : Nd → Nd)
+    (hin : ∀ nd, s.nodes[i]? = some nd → balIn nd → balIn (f nd)) (hout : ∀ nd, s.nodes[i]? = some nd → balOut nd → balOut (f nd))
+    (hl : ∀ nd c, s.nodes[i]? = some nd → balFwd nd c → balFwd (f nd) c) (hr : ∀ nd c, s.nodes[i]? = some c → balFwd nd c → balFwd nd (f c))
+    (hent : ∀ nd, (f nd).ent = nd.ent) {s' : State} (hn : s'.nodes = modifyNth s.nodes i f)
+    (hs : s'.accepted = s.accepted ∧ s'.ingest = s.ingest ∧ s'.forkHand = s.forkHand ∧ s'.lostIngest = s.lostIngest) : Cons s' := by
+  have get : ∀ k, s'.nodes[k]? = if k = i then s.nodes[k]?.map f else s.nodes[k]? := by
+    intro k; rw [hn]; exact modifyNth_getElem? _ _ _ _
+  refine ⟨?_, ?_, ?_, ?_⟩
+  · intro k nd hk
+    rw [get k] at hk
+    split at hk
+    · cases hn0 : s.nodes[k]? with
+      | none => simp [hn0] at hk
+      | some nd0 => simp [hn0] at hk; subst hk; rename_i hki; subst hki; exact hin _ hn0 (hc.nodeIn k nd0 hn0)
+    · exact hc.nodeIn k nd hk
+  · intro k nd hk
+    rw [get k] at hk
+    split at hk
+    · cases hn0 : s.nodes[k]? with
+      | none => simp [hn0] at hk
+      | some nd0 => simp [hn0] at hk; subst hk; rename_i hki; subst hki; exact hout _ hn0 (hc.nodeOut k nd0 hn0)
+    · exact hc.nodeOut k nd hk
+  · intro k nd c hk hk1
+    rw [get k] at hk
+    rw [get (k+1)] at hk1
+    split at hk
+    · split at hk1
+      · omega
+      · cases hn0 : s.nodes[k]? with
+        | none => simp [hn0] at hk
+        | some nd0 => simp [hn0] at hk; subst hk; rename_i hki _; subst hki; exact hl _ _ hn0 (hc.fwd k nd0 c hn0 hk1)
+    · split at hk1
+      · cases hn0 : s.nodes[k+1]? with
+        | none => simp [hn0] at hk1
+        | some c0 => simp [hn0] at hk1; subst hk1; rename_i _ hki; subst hki; exact hr _ _ hn0 (hc.fwd k nd c0 hk hn0)
+      · exact hc.fwd k nd c hk hk1
+  · rw [hs.1, hs.2.1, hs.2.2.1, hs.2.2.2, hc.src, get 0]
+    split
+    · cases hn0 : s.nodes[0]? with
+      | none => simp
+      | some nd0 => simp [hent]
+    · rfl
+
+theorem Cons.same_nodes {s s' : State} (hc : Cons s) (hn : s'.nodes = s.nodes)
+    (h3 : s'.accepted + s.ingest + s.forkHand + s.lostIngest = s.accepted + s'.ingest + s'.forkHand + s'.lostIngest) : Cons s' := by
+  refine ⟨?_, ?_, ?_, ?_⟩
+  · intro i nd h; rw [hn] at h; exact hc.nodeIn i nd h
+  · intro i nd h; rw [hn] at h; exact hc.nodeOut i nd h
+  · intro i nd c h h'; rw [hn] at h h'; exact hc.fwd i nd c h h'
+  · have := hc.src; rw [hn]; omega
+
+theorem cons_stopStep {cfg : Cfg} {s s' : State} (h : stopStep cfg s = some s') (hc : Cons s) : Cons s' := by
+  unfold stopStep at h
+  repeat' (first | contradiction | split at h)
+  all_goals (first | (simp at h; done) | (simp only [Option.some.injEq] at h; subst h))
+  all_goals (first
+    | (exact hc.same_nodes rfl (by simp))
+    | (refine cons_modifyNth hc _ _ ?_ ?_ ?_ ?_ ?_ rfl (by simp) <;> intros <;>
+        (try (simp_all [balIn, balOut, balFwd]; done)) <;> (try (simp_all [balIn, balOut, balFwd]; omega))))
+
+theorem cons_nodeAct {s : State} {env : Env} {a : NAct} {i : Nat} {ns : List Nd} {l : Bool}
+    (h : stepAt env a i s.nodes = some (ns, l)) (hc : Cons s) {s' : State} (hn : s'.nodes = ns)
+    (hs : s'.accepted = s.accepted ∧ s'.ingest = s.ingest ∧ s'.forkHand = s.forkHand ∧ s'.lostIngest = s.lostIngest) : Cons s' := by
+  obtain ⟨nd, r, g1, g2, _, g4, g5, g6, g7⟩ := stepAt_spec h
+  -- the new child
+  have hchild : ∀ c, s.nodes[i+1]? = some c → ∃ c', ns[i+1]? = some c' ∧ ChildEff c c' ∧ balFwd r.nd c' := by
+    intro c hc1
+    rw [hc1] at g2
+    obtain ⟨c', e1, e2, e3⟩ := nodeStep_child g2 (hc.fwd i nd c g1 hc1)
+    refine ⟨c', ?_, e2, e3⟩
+    rw [g6 c hc1, e1]; rfl
+  have hnone : s.nodes[i+1]? = none → ns[i+1]? = none := by
+    intro h0
+    have : ns.length = s.nodes.length := g4
+    rw [List.getElem?_eq_none_iff] at h0 ⊢
+    omega
+  -- every node of the new list
+  have hnode : ∀ (k : Nat) (x : Nd), ns[k]? = some x →
+      (k ≠ i ∧ k ≠ i + 1 ∧ s.nodes[k]? = some x) ∨ (k = i ∧ x = r.nd) ∨
+      (k = i + 1 ∧ ∃ c, s.nodes[i+1]? = some c ∧ ChildEff c x ∧ balFwd r.nd x) := by
+    intro k x hk
+    by_cases hki : k = i
+    · subst hki; rw [g5] at hk; simp at hk; exact Or.inr (Or.inl ⟨rfl, hk.symm⟩)
+    · by_cases hki1 : k = i + 1
+      · subst hki1
+        cases hc1 : s.nodes[i+1]? with
+        | none => rw [hnone hc1] at hk; simp at hk
+        | some c =>
+          obtain ⟨c', e1, e2, e3⟩ := hchild c hc1
+          rw [e1] at hk; simp at hk; subst hk
+          exact Or.inr (Or.inr ⟨rfl, c, rfl, e2, e3⟩)
+      · rw [g7 k hki hki1] at hk
+        exact Or.inl ⟨hki, hki1, hk⟩
+  refine Cons.of_nodes ?_ ?_ ?_
+  · intro k x hk
+    rw [hn] at hk
+    rcases hnode k x hk with ⟨_, _, h0⟩ | ⟨_, rfl⟩ | ⟨_, c, hc1, e2, _⟩
+    · exact ⟨hc.nodeIn k x h0, hc.nodeOut k x h0⟩
+    · exact ⟨nodeStep_balIn g2 (hc.nodeIn i nd g1), nodeStep_balOut g2 (hc.nodeOut i nd g1)⟩
+    · exact ⟨e2.balIn (hc.nodeIn _ c hc1), e2.balOut (hc.nodeOut _ c hc1)⟩
+  · intro k x y hk hk1
+    rw [hn] at hk hk1
+    rcases hnode k x hk with ⟨hk_i, hk_i1, h0⟩ | ⟨rfl, rfl⟩ | ⟨rfl, c, hc1, e2, _⟩
+    · rcases hnode (k+1) y hk1 with ⟨_, _, h1⟩ | ⟨hki, rfl⟩ | ⟨hki, _⟩
+      · exact hc.fwd k x y h0 h1
+      · -- x is the parent of the acting node: its `ent` is unchanged
+        have := hc.fwd k x nd h0 (by rw [hki]; exact g1)
+        unfold balFwd at *
+        rw [nodeStep_ent g2]; exact this
+      · omega
+    · rcases hnode (k+1) y hk1 with ⟨_, hk1', _⟩ | ⟨hki, _⟩ | ⟨_, c, hc1, e2, e3⟩
+      · omega
+      · omega
+      · exact e3
+    · rcases hnode (i+1+1) y hk1 with ⟨_, _, h1⟩ | ⟨hki, _⟩ | ⟨hki, _⟩
+      · exact e2.balFwd (hc.fwd (i+1) c y hc1 h1)
+      · omega
+      · omega
+  · rw [hs.1, hs.2.1, hs.2.2.1, hs.2.2.2, hc.src, hn]
+    cases i with
+    | zero => rw [g5, g1]; simp [nodeStep_ent g2]
+    | succ i => rw [g7 0 (by omega) (by omega)]
+
+/-- **Conservation is preserved by every action.** -/
+theorem cons_step {cfg : Cfg} {s s' : State} {a : Act} (h : step cfg s a = some s') (hc : Cons s) : Cons s' := by
+  cases a with
+  | stop => exact cons_stopStep h hc
+  | node i a =>
+    simp only [step] at h
+    split at h
+    · rename_i ns l hst
+      simp only [Option.some.injEq] at h; subst h
+      exact cons_nodeAct hst hc rfl (by simp)
+    · simp at h
+  | forkPut =>
+    simp only [step] at h
+    repeat' (first | contradiction | split at h)
+    all_goals (first | (simp at h; done) | (simp only [Option.some.injEq] at h; subst h))
+    · exact hc.same_nodes rfl (by simp)
+    · exact hc.same_nodes rfl (by dsimp only; omega)
+    · rename_i nd rest hnodes _
+      have e : s.nodes = modifyNth s.nodes 0 (fun nd => { nd with inq := nd.inq + 1, ent := nd.ent + 1 }) → True := fun _ => trivial
+      refine Cons.of_nodes ?_ ?_ ?_
+      · intro k x hk
+        cases k with
+        | zero =>
+          simp at hk; subst hk
+          have h0 : s.nodes[0]? = some nd := by rw [hnodes]; rfl
+          have := hc.nodeIn 0 nd h0; have := hc.nodeOut 0 nd h0
+          refine ⟨by unfold balIn at *; simp; omega, by simpa [balOut] using this⟩
+        | succ k =>
+          have h0 : s.nodes[k+1]? = some x := by rw [hnodes]; simpa using hk
+          exact ⟨hc.nodeIn _ x h0, hc.nodeOut _ x h0⟩
+      · intro k x y hk hk1
+        have h1 : s.nodes[k+1]? = some y := by rw [hnodes]; simpa using hk1
+        cases k with
+        | zero =>
+          simp at hk; subst hk
+          have h0 : s.nodes[0]? = some nd := by rw [hnodes]; rfl
+          simpa [balFwd] using hc.fwd 0 nd y h0 h1
+        | succ k =>
+          have h0 : s.nodes[k+1]? = some x := by rw [hnodes]; simpa using hk
+          exact hc.fwd _ x y h0 h1
+      · have := hc.src; rw [hnodes] at this; simp only [List.getElem?_cons_zero, Option.map_some, Option.getD_some] at this ⊢; omega
+  | write =>
+    simp only [step] at h
+    split at h
+    · simp only [Option.some.injEq] at h; subst h; exact hc.same_nodes rfl (by simp; omega)
+    · simp at h
+  | forkTake =>
+    simp only [step] at h
+    repeat' (first | contradiction | split at h)
+    all_goals (first | (simp at h; done) | (simp only [Option.some.injEq] at h; subst h))
+    · exact hc.same_nodes rfl (by simp; omega)
+    · exact hc.same_nodes rfl (by simp)
+  | forkLock =>
+    simp only [step] at h
+    split at h
+    · simp only [Option.some.injEq] at h; subst h; exact hc.same_nodes rfl (by simp)
+    · simp at h
+  | forkDrop =>
+    simp only [step] at h
+    repeat' (first | contradiction | split at h)
+    all_goals (first | (simp at h; done) | (simp only [Option.some.injEq] at h; subst h))
+    exact hc.same_nodes rfl (by simp; omega)
+  | forkExit =>
+    simp only [step] at h
+    split at h
+    · simp only [Option.some.injEq] at h; subst h; exact hc.same_nodes rfl (by simp)
+    · simp at h
+  | thrExit =>
+    simp only [step] at h
+    split at h
+    · simp only [Option.some.injEq] at h; subst h; exact hc.same_nodes rfl (by simp)
+    · simp at h
+
+/-- Points inside node `nd` that have not reached its child edge: input backlog, in hand, dropped on the forward side. -/
+def pending (nd : Nd) : Nat := nd.inq + nd.hand + nd.dropped
+
+/-- Points held (or dropped) by the nodes before position `j`. -/
+def upstream (ns : List Nd) : Nat → Nat
+  | 0 => 0
+  | j + 1 => upstream ns j + ((ns[j]?.map pending).getD 0)
+
+/-- Every accepted point is either lost at the fork, still in the ingest stage, inside a node before `j`,
+or has been collected into the input edge of node `j`. -/
+theorem cons_ent {s : State} (hc : Cons s) : ∀ (j : Nat) (nd : Nd), s.nodes[j]? = some nd →
+    (∀ (i : Nat) (x : Nd), i < j → s.nodes[i]? = some x → forwards x.kind = true) →
+    s.accepted = s.lostIngest + s.ingest + s.forkHand + upstream s.nodes j + nd.ent := by
+  intro j
+  induction j with
+  | zero =>
+    intro nd hj _
+    have := hc.src
+    rw [hj] at this
+    simp only [Option.map_some, Option.getD_some] at this
+    simp only [upstream]; omega
+  | succ j ih =>
+    intro c hj1 hfw
+    cases hj : s.nodes[j]? with
+    | none =>
+      rw [List.getElem?_eq_none_iff] at hj
+      have : s.nodes[j+1]? = none := by rw [List.getElem?_eq_none_iff]; omega
+      rw [this] at hj1; simp at hj1
+    | some nd =>
+      have h1 := ih nd hj (fun i x hi hx => hfw i x (by omega) hx)
+      have h2 := hc.fwd j nd c hj hj1 (hfw j nd (by omega) hj)
+      have h3 := hc.nodeIn j nd hj
+      unfold balIn at h3
+      simp only [upstream, hj, Option.map_some, Option.getD_some, pending]
+      omega
 
 end Kap.C07
